@@ -1,0 +1,14 @@
+//go:build verif
+
+package daemon
+
+// VerifYield, when set by a verification harness, is called at named yield
+// points that lie between critical sections. It is never set in production
+// builds (this file is only compiled with the "verif" build tag).
+var VerifYield func(point string)
+
+func verifYield(point string) {
+	if f := VerifYield; f != nil {
+		f(point)
+	}
+}
